@@ -13,6 +13,9 @@ stand-ins below are installed by monkey-patching from this process.
                                        delivers the queued notifications later, in an order of its choosing
   * Controller._event_scheduler     -> object whose wait() hands control to the harness; the real
                                        Controller.run() loop executes unmodified
+  * the stage loop of scripts/elaunch.py:Run (not importable: a script with global option parsing) is
+    re-stated in Sim.run(): run() the current stage; stop on an exception unless the stage has
+    `continue-on-error`; experiment.incrementStage(); Controller.initialise(next stage); run() ...
 """
 from __future__ import annotations
 
@@ -239,11 +242,13 @@ STATE_NAMES = {"finished": "finished", "failed": "failed", "component_shutdown":
 class Sim:
     """One experiment + one real Controller under the deterministic runtime.
 
-    Ops (JSON lists):  ["sched"] | ["exit", c] | ["fin", c] | ["pm", c] | ["kill"] | ["tick", c]
+    Ops (JSON lists):  ["sched"] | ["exit", c] | ["fin", c] | ["pm", c] | ["kill"] | ["tick", c] | ["next"]
     where c is the index of the component in `self.refs` (= order of controller.graph.nodes).
     `["sched"]` = return from wait() so that the real loop performs its next iteration
     (active check, `_schedule`).  The exit reason of the k-th execution of c is scripts[c][k] (Success
-    beyond the end of the script)."""
+    beyond the end of the script).  `["next"]` is recorded (never chosen) when the stage loop has called
+    Controller.initialise() for the next stage; right after it the chooser may let events happen before the
+    run() of the new stage starts (the inter-stage window: real notifications do not wait for run())."""
 
     def __init__(self, flowir_yaml, workdir, scripts_by_ref=None):
         env = install()
@@ -252,6 +257,7 @@ class Sim:
         cwd = os.getcwd()
         n_int = len(env["intervals"])
         n_eng = len(env["ENGINES"])
+        self._n_int = n_int
         try:
             self.exp = TU.experiment_from_flowir(flowir_yaml, workdir, checkExecutables=False)
             self.controller, self._components = TU.new_controller(self.exp)
@@ -292,6 +298,8 @@ class Sim:
         self.trace = []            # (op, snapshot)
         self.status = FakeStatus()
         self.result = None
+        self.results = []          # what run() did for every stage that was run ("ok" | exception type name | "stopped")
+        self.stage_no = 0          # index of the stage that is current
         self.n_sched = 0
         self._chooser = None
         ctl.initialise(self.exp._stages[0], self.status)
@@ -313,6 +321,7 @@ class Sim:
             r = real_schedule(*a, **k)
             self.n_sched += 1
             self._record(["sched"])
+            self._notify(["sched"])
             return r
         ctl._schedule = schedule
 
@@ -337,10 +346,16 @@ class Sim:
             comps.append([self.state_name(r), r in ctl.comp_done, c in ctl.comp_staged_in, c.engine.runs,
                           bool(c.finishCalled)])
         pend = sorted([k, self.index[r]] for k, r in self.pending)
-        return {"comps": comps, "stop": bool(ctl.stop_executing), "pending": pend}
+        return {"comps": comps, "stop": bool(ctl.stop_executing), "pending": pend,
+                "stage": int(ctl.currentStage.index)}
 
     def _record(self, op):
         self.trace.append((op, self.snapshot()))
+
+    def _notify(self, op):
+        fn = getattr(self._chooser, "notify", None)
+        if fn is not None:
+            fn(self, op)
 
     # -- enabled ops -------------------------------------------------------------------------
     def running(self):
@@ -393,19 +408,56 @@ class Sim:
                 return
             self.apply(op)
 
-    def run(self, chooser):
-        """Runs the real Controller.run() with `chooser(sim) -> op | None` deciding what happens inside every
-        wait().  Returns {"result": "ok" | exception type name | "stopped", "trace": [...]}"""
+    def run(self, chooser, max_stages=None):
+        """Runs the stage loop (real Controller.run() per stage, see the module docstring) with
+        `chooser(sim) -> op | None` deciding what happens inside every wait() and in the inter-stage windows.
+        Returns the outcome of the last run(): "ok" | exception type name | "stopped"; `self.results` has one
+        entry per stage that was run."""
         self._chooser = chooser
-        try:
-            self.controller.run()
-            self.result = "ok"
-        except StopSim:
-            self.result = "stopped"
-        except Exception as exc:  # noqa
-            self.result = type(exc).__name__
-            self.error = exc
+        ctl = self.controller
+        nst = int(self.exp.numStages())
+        if max_stages is not None:
+            nst = min(nst, max_stages)
+        self.results = []
+        while True:
+            try:
+                ctl.run()
+                r = "ok"
+            except StopSim:
+                r = "stopped"
+            except Exception as exc:  # noqa
+                r = type(exc).__name__
+                self.error = exc
+            self.results.append(r)
+            if r == "stopped":
+                break
+            stage = self.exp._stages[self.stage_no]
+            go_on = (r == "ok") or (r in ("UnexpectedJobFailureError", "FinalStageNoFinishedLeafComponents")
+                                    and bool(stage.continueOnError))
+            if not go_on or self.stage_no + 1 >= nst:
+                break
+            self.stage_no += 1
+            self.exp.incrementStage()
+            ctl.initialise(self.exp._stages[self.stage_no], self.status)
+            self._record(["next"])
+            self._notify(["next"])
+            try:
+                self._in_wait()          # inter-stage window: ends when the chooser says ["sched"]
+            except StopSim:
+                self.results.append("stopped")
+                break
+        self.result = self.results[-1]
         return self.result
+
+    def stage_states(self):
+        out = []
+        for i in range(int(self.exp.numStages())):
+            try:
+                st = self.controller._stageStates[i].state
+                out.append(STATE_NAMES.get(st, str(st)))
+            except Exception as exc:  # noqa
+                out.append("error:" + type(exc).__name__)
+        return out
 
     def ops(self):
         return [op for op, _ in self.trace]
@@ -415,6 +467,7 @@ class Sim:
             self.env["RUN_HOOKS"].remove(self._on_run)
         except ValueError:
             pass
+        del self.env["intervals"][self._n_int:]
         # complete the subjects so that nothing keeps references alive
         for s in self._interval_subjects:
             try:
@@ -423,24 +476,41 @@ class Sim:
                 pass
 
 
-def scripted(ops, finish=True):
-    """chooser that replays a recorded op list.  The two leading scheduler passes of Controller.run()
-    (one before the loop, one in its first iteration) happen by themselves, so two leading ["sched"]
-    entries are skipped.  At the end of the list the loop is given one more iteration when `finish`
-    (so that a completed stage returns from run()), then the simulation is stopped."""
-    ops = [list(o) for o in ops]
-    lead = 0
-    while lead < 2 and lead < len(ops) and ops[lead][0] == "sched":
-        lead += 1
-    state = {"i": lead, "extra": bool(finish)}
+class scripted:
+    """chooser that replays a recorded op list.
 
-    def choose(sim):
-        if state["i"] < len(ops):
-            op = ops[state["i"]]
-            state["i"] += 1
+    Scheduler passes are not caused by the chooser but by the real loop (one before the loop of every run(),
+    one per loop iteration): a ["sched"] entry of the list is consumed when a real `_schedule` call happens
+    (`notify`), a ["next"] entry when the stage loop really moved on.  While the head of the list is ["sched"]
+    (or ["next"]) wait() returns, so that the loop performs its next iteration (or ends); if the stage does not
+    end where the list says ["next"], the simulation is stopped.  At the end of the list the loop is given one
+    more iteration when `finish` (so that a completed stage returns from run()), then the simulation is
+    stopped."""
+
+    def __init__(self, ops, finish=True):
+        self.ops = [list(o) for o in ops]
+        self.i = 0
+        self.extra = bool(finish)
+        self.asked_next = False
+
+    def notify(self, sim, op):
+        if self.i < len(self.ops) and self.ops[self.i][0] == op[0] and op[0] in ("sched", "next"):
+            self.i += 1
+            self.asked_next = False
+
+    def __call__(self, sim):
+        if self.i < len(self.ops):
+            op = self.ops[self.i]
+            if op[0] == "sched":
+                return ["sched"]
+            if op[0] == "next":
+                if self.asked_next:
+                    return None
+                self.asked_next = True
+                return ["sched"]
+            self.i += 1
             return op
-        if state["extra"]:
-            state["extra"] = False
+        if self.extra:
+            self.extra = False
             return ["sched"]
         return None
-    return choose
